@@ -5,6 +5,7 @@ package main
 
 import (
 	"fmt"
+	"strconv"
 	"go/constant"
 	"go/token"
 	"go/types"
@@ -15,10 +16,11 @@ import (
 )
 
 type Val struct {
-	T   types.Type
-	S   Term
-	Tup []*Val
-	LV  *LValue
+	T    types.Type
+	S    Term
+	Tup  []*Val
+	LV   *LValue
+	Virt []*Val // elements of a virtual (heap-less) varargs array / its slice
 }
 
 const (
@@ -80,14 +82,19 @@ type Obligation struct {
 	Witness string // replay key (kind/slot) when the obligation comes from an expansion
 	Props   []string
 	Sites   []Site
+	Uses    []string // invariant labels to activate (nil = all)
 }
 
 // Site is one program point contributing to an aggregated obligation.
 type Site struct {
-	Where   string `json:"where"`
-	Hyp     Term   `json:"-"`
-	Goal    Term   `json:"-"`
-	Verdict string `json:"verdict,omitempty"`
+	Where   string          `json:"where"`
+	Hyp     Term            `json:"-"`
+	Goal    Term            `json:"-"`
+	Verdict string          `json:"verdict,omitempty"`
+	Block   *ssa.BasicBlock `json:"-"`
+	Results []SolverResult  `json:"-"`
+	File    string          `json:"-"`
+	Uses    []string        `json:"-"`
 }
 
 type Flag struct {
@@ -150,6 +157,20 @@ type FnCtx struct {
 	inst     *clause // instance hypothesis (slots ... assume)
 	qDepth   int
 	qFacts   [][]Term
+	curLoop  *loopInfo
+	lemmasUsed []string
+	acts     map[string]Term // activation literal per named loop invariant
+	actOrder []string
+	assertBlk map[int]*ssa.BasicBlock
+	reachMemo map[[2]int]bool
+	heapTok   map[string]Term
+	virt      map[*ssa.Alloc][]*Val
+	virtAddr  map[*ssa.IndexAddr]virtCell
+}
+
+type virtCell struct {
+	a *ssa.Alloc
+	k int
 }
 
 type retSite struct {
@@ -177,7 +198,9 @@ func newFnCtx(L *Loaded, u *Universe, fn *ssa.Function, spec *FuncSpec, specs *S
 func (c *FnCtx) reset() {
 	c.decls = nil
 	c.declared = map[string]bool{}
-	c.structs = map[string]string{}
+	if c.structs == nil {
+		c.structs = map[string]string{}
+	}
 	c.asserts = nil
 	c.regs = map[ssa.Value]*Val{}
 	c.heapSort = map[string]string{}
@@ -194,6 +217,13 @@ func (c *FnCtx) reset() {
 	c.retVals = nil
 	c.strConst = map[string]string{}
 	c.nfresh = 0
+	c.acts = nil
+	c.actOrder = nil
+	c.assertBlk = nil
+	c.reachMemo = nil
+	c.heapTok = nil
+	c.virt = nil
+	c.virtAddr = map[*ssa.IndexAddr]virtCell{}
 }
 
 func (c *FnCtx) fresh(prefix, srt string) Term {
@@ -213,6 +243,51 @@ func (c *FnCtx) assume(t Term) {
 		return
 	}
 	c.asserts = append(c.asserts, t)
+	if c.assertBlk == nil {
+		c.assertBlk = map[int]*ssa.BasicBlock{}
+	}
+	if c.curBlock != nil {
+		c.assertBlk[len(c.asserts)-1] = c.curBlock
+	}
+}
+
+// relevant reports whether an assumption made while executing block `from` can
+// matter for an obligation at block `at`: only if `from` reaches `at` in the
+// acyclic CFG (back edges removed). Dropping the others is always sound.
+func (c *FnCtx) relevant(from, at *ssa.BasicBlock) bool {
+	if from == nil || at == nil || from == at {
+		return true
+	}
+	if c.reachMemo == nil {
+		c.reachMemo = map[[2]int]bool{}
+	}
+	k := [2]int{from.Index, at.Index}
+	if v, ok := c.reachMemo[k]; ok {
+		return v
+	}
+	seen := map[*ssa.BasicBlock]bool{}
+	stack := []*ssa.BasicBlock{from}
+	found := false
+	for len(stack) > 0 && !found {
+		n := stack[len(stack)-1]
+		stack = stack[:len(stack)-1]
+		if seen[n] {
+			continue
+		}
+		seen[n] = true
+		for _, s := range n.Succs {
+			if s.Dominates(n) {
+				continue // back edge
+			}
+			if s == at {
+				found = true
+				break
+			}
+			stack = append(stack, s)
+		}
+	}
+	c.reachMemo[k] = found
+	return found
 }
 
 // define introduces a named constant equal to t (keeps terms small).
@@ -427,6 +502,11 @@ func (c *FnCtx) typeAssume(st *State, v *Val) {
 	if v == nil || v.S == "" {
 		return
 	}
+	if c.qDepth > 0 {
+		// under a binder the well-typedness of loaded cells is rarely needed and its
+		// universally quantified form floods E-matching: omitted (always sound to omit)
+		return
+	}
 	key := "ta:" + v.S + ":" + typeKey(v.T)
 	if c.assumed[key] {
 		return
@@ -447,6 +527,9 @@ func (c *FnCtx) typeAssume(st *State, v *Val) {
 			app("<=", app("+", app("s_off", v.S), app("s_cap", v.S)), "4611686018427387904"),
 			app("<=", "0", app("s_arr", v.S)),
 			implies(eq(app("s_arr", v.S), "0"), eq(app("s_cap", v.S), "0"))))
+		if st != nil && st.nextRef != "" {
+			c.assume(app("<", app("s_arr", v.S), st.nextRef))
+		}
 	case *types.Interface:
 		c.assume(implies(eq(app("itag", v.S), "0"), eq(app("ival", v.S), "0")))
 		c.assume(app("<=", "0", app("itag", v.S)))
@@ -465,6 +548,9 @@ func (c *FnCtx) typeAssume(st *State, v *Val) {
 		}
 	case *types.Pointer, *types.Map, *types.Chan, *types.Signature:
 		c.assume(app("<=", "0", v.S))
+		if st != nil && st.nextRef != "" {
+			c.assume(app("<", v.S, st.nextRef)) // values only refer to objects that already exist
+		}
 	}
 }
 
@@ -1190,7 +1276,7 @@ func (c *FnCtx) emit(o *Obligation) {
 	if i := strings.Index(o.Name, "@"); i >= 0 {
 		o.Name = o.Name[:i]
 	}
-	site := Site{Where: o.Where, Hyp: o.Hyp, Goal: o.Goal}
+	site := Site{Where: o.Where, Hyp: o.Hyp, Goal: o.Goal, Block: c.curBlock, Uses: o.Uses}
 	for _, p := range c.obls {
 		if p.Name == o.Name && p.Cover == o.Cover {
 			p.Sites = append(p.Sites, site)
@@ -1257,6 +1343,14 @@ func (c *FnCtx) execInstr(st *State, ins ssa.Instruction) {
 	case *ssa.Alloc:
 		c.doAlloc(st, x)
 	case *ssa.Store:
+		if ia, ok := x.Addr.(*ssa.IndexAddr); ok {
+			if vc, ok := c.virtAddr[ia]; ok {
+				v := c.val(st, x.Val)
+				at := vc.a.Type().Underlying().(*types.Pointer).Elem().Underlying().(*types.Array)
+				c.virt[vc.a][vc.k] = &Val{T: at.Elem(), S: c.coerce(v, at.Elem())}
+				return
+			}
+		}
 		p := c.val(st, x.Addr)
 		v := c.val(st, x.Val)
 		c.nilCheck(st, ins, p)
@@ -1380,8 +1474,68 @@ func (c *FnCtx) allocRef(st *State, name string) Term {
 	return r
 }
 
+// isVirtualVarargs: the temporary array go/ssa builds for append(s, x, y): only
+// written through constant-index IndexAddr stores and sliced once for an append.
+func isVirtualVarargs(x *ssa.Alloc) (int, bool) {
+	if x.Comment != "varargs" {
+		return 0, false
+	}
+	at, ok := x.Type().Underlying().(*types.Pointer).Elem().Underlying().(*types.Array)
+	if !ok || at.Len() > 8 || x.Referrers() == nil {
+		return 0, false
+	}
+	nslice := 0
+	for _, r := range *x.Referrers() {
+		switch u := r.(type) {
+		case *ssa.IndexAddr:
+			if _, isC := u.Index.(*ssa.Const); !isC || u.Referrers() == nil {
+				return 0, false
+			}
+			for _, rr := range *u.Referrers() {
+				if st, ok := rr.(*ssa.Store); !ok || st.Addr != u {
+					if _, isD := rr.(*ssa.DebugRef); !isD {
+						return 0, false
+					}
+				}
+			}
+		case *ssa.Slice:
+			nslice++
+			if u.Low != nil || u.High != nil || u.Max != nil || u.Referrers() == nil {
+				return 0, false
+			}
+			for _, rr := range *u.Referrers() {
+				call, ok := rr.(*ssa.Call)
+				if !ok {
+					return 0, false
+				}
+				b, isB := call.Call.Value.(*ssa.Builtin)
+				if !isB || b.Name() != "append" || len(call.Call.Args) != 2 || call.Call.Args[1] != u {
+					return 0, false
+				}
+			}
+		case *ssa.DebugRef:
+		default:
+			return 0, false
+		}
+	}
+	return int(at.Len()), nslice == 1
+}
+
 func (c *FnCtx) doAlloc(st *State, x *ssa.Alloc) {
 	el := x.Type().Underlying().(*types.Pointer).Elem()
+	if n, ok := isVirtualVarargs(x); ok {
+		if c.virt == nil {
+			c.virt = map[*ssa.Alloc][]*Val{}
+		}
+		at := el.Underlying().(*types.Array)
+		elems := make([]*Val, n)
+		for i := range elems {
+			elems[i] = c.mk(at.Elem(), c.zero(at.Elem()))
+		}
+		c.virt[x] = elems
+		c.regs[x] = &Val{T: x.Type(), S: "0", Virt: elems}
+		return
+	}
 	if c.cells[x] {
 		lv := &LValue{Kind: lvCell, Cell: x, RootT: el, T: el}
 		st.cells[x] = c.zero(el)
@@ -1428,6 +1582,13 @@ func (c *FnCtx) elemHeap(el types.Type) (string, string) {
 func (c *FnCtx) doIndexAddr(st *State, x *ssa.IndexAddr) {
 	base := c.val(st, x.X)
 	iv := c.val(st, x.Index)
+	if a, ok := x.X.(*ssa.Alloc); ok && c.virt != nil && c.virt[a] != nil {
+		// element of a virtual varargs array: remembered as (alloc, constant index)
+		k, _ := strconv.Atoi(strings.Trim(iv.S, "() "))
+		c.regs[x] = &Val{T: x.Type(), S: "0", Virt: []*Val{{S: fmt.Sprintf("%d", k)}}, LV: nil}
+		c.virtAddr[x] = virtCell{a, k}
+		return
+	}
 	switch u := x.X.Type().Underlying().(type) {
 	case *types.Slice:
 		hn, hs := c.elemHeap(u.Elem())
@@ -1522,6 +1683,10 @@ func (c *FnCtx) doMakeSlice(st *State, x *ssa.MakeSlice) {
 }
 
 func (c *FnCtx) doSlice(st *State, x *ssa.Slice) {
+	if a, ok := x.X.(*ssa.Alloc); ok && c.virt != nil && c.virt[a] != nil {
+		c.regs[x] = &Val{T: x.Type(), S: "", Virt: c.virt[a]}
+		return
+	}
 	base := c.val(st, x.X)
 	if pt, ok := x.X.Type().Underlying().(*types.Pointer); ok {
 		if at, ok := pt.Elem().Underlying().(*types.Array); ok && base.S != "" {
